@@ -21,6 +21,10 @@ func (w *World) constIntUp(root *ssa.Function, v ssa.Value, d int) (int64, bool)
 		return k, true
 	}
 	switch x := v.(type) {
+	case *ssa.Phi:
+		if i, ok := w.phiSel[x]; ok && i < len(x.Edges) {
+			return w.constIntUp(root, x.Edges[i], d+1)
+		}
 	case *ssa.Parameter:
 		if u := w.resolveUp(root, x); u != ssa.Value(x) {
 			return w.constIntUp(root, u, d+1)
@@ -111,6 +115,20 @@ func (w *World) withECDHActivations(alloc *ssa.Alloc, f func(frame *ssa.Function
 		f(g, w.Facts(g).At(alloc.Block()), "")
 		return
 	}
+	// the arms assign what the key is built from and join before one construction: one activation per edge into
+	// the join, the phis of the join taking that edge's values
+	if j := w.ecdhJoin(g, alloc); j != nil {
+		for i, pred := range j.Preds {
+			ef := w.factsOnEdge(pred, j)
+			if bits, _, _ := ecdhArm(ef); bits == 0 {
+				continue
+			}
+			w.selectEdge(j, i)
+			f(g, ef, fmt.Sprintf(" (arm joining at %s, edge %d)", w.Pos(j.Instrs[0].Pos()), i))
+			w.phiSel = nil
+		}
+		return
+	}
 	if !w.transparent(g) || w.dynCallable(g) {
 		f(g, w.Facts(g).At(alloc.Block()), "")
 		return
@@ -159,6 +177,11 @@ func c16ECDHSSA(c *Ctx) int {
 				return
 			}
 			cv = w.canon(frame, cv)
+			if ph, isPhi := cv.(*ssa.Phi); isPhi {
+				if i, sel := w.phiSel[ph]; sel {
+					cv = w.canon(frame, ph.Edges[i])
+				}
+			}
 			if eb, ok := nistCurveCall(cv, "crypto/elliptic"); !ok {
 				c.Und(rule, key+" builds the ecdsa key on the same curve", pos, "Curve is not a crypto/elliptic constructor call"+where)
 			} else {
@@ -227,7 +250,54 @@ func ecdhBytesGuard(w *World, fn *ssa.Function, ins ssa.Instruction, facts *Fact
 	if !ok || facts == nil {
 		return false
 	}
-	bits, subject, arms := ecdhArm(facts.At(sl.Block()))
+	_, _, arms := ecdhArm(facts.At(sl.Block()))
+	if arms == 0 && w.phiSel == nil {
+		// the bounds are phis of the join of the curve arms: the guard holds on every edge into the join
+		var j *ssa.BasicBlock
+		okJ := true
+		var find func(v ssa.Value, d int)
+		find = func(v ssa.Value, d int) {
+			if v == nil || d > 6 {
+				return
+			}
+			switch x := throughCell(strip(v)).(type) {
+			case *ssa.Phi:
+				if j != nil && j != x.Block() {
+					okJ = false
+				}
+				j = x.Block()
+			case *ssa.BinOp:
+				find(x.X, d+1)
+				find(x.Y, d+1)
+			case *ssa.Convert:
+				find(x.X, d+1)
+			}
+		}
+		find(sl.Low, 0)
+		find(sl.High, 0)
+		if j == nil || !okJ || j.Parent() != sl.Parent() || !j.Dominates(sl.Block()) {
+			return false
+		}
+		n := 0
+		for i, pred := range j.Preds {
+			if facts.At(pred) == nil {
+				continue // edge not taken in this activation
+			}
+			w.selectEdge(j, i)
+			ok := ecdhBytesGuardWith(w, sl, w.factsOnEdge(pred, j), root)
+			w.phiSel = nil
+			if !ok {
+				return false
+			}
+			n++
+		}
+		return n > 0
+	}
+	return ecdhBytesGuardWith(w, sl, facts.At(sl.Block()), root)
+}
+
+func ecdhBytesGuardWith(w *World, sl *ssa.Slice, fm map[Lit]bool, root *ssa.Function) bool {
+	bits, subject, arms := ecdhArm(fm)
 	if arms != 1 {
 		return false
 	}
@@ -273,4 +343,30 @@ func (w *World) FuncsOfPkg(suffix string) []*ssa.Function {
 func namedIs(t types.Type, pkg, name string) bool {
 	nt, ok := t.(*types.Named)
 	return ok && nt.Obj().Pkg() != nil && nt.Obj().Pkg().Path() == pkg && nt.Obj().Name() == name
+}
+
+// selectEdge: the phis of join block j take the value of incoming edge i.
+func (w *World) selectEdge(j *ssa.BasicBlock, i int) {
+	w.phiSel = map[*ssa.Phi]int{}
+	for _, ins := range j.Instrs {
+		ph, ok := ins.(*ssa.Phi)
+		if !ok {
+			break
+		}
+		w.phiSel[ph] = i
+	}
+}
+
+// ecdhJoin: the block whose phi the Curve field of the ecdsa key built at alloc is read from, when that block
+// dominates the construction.
+func (w *World) ecdhJoin(g *ssa.Function, alloc *ssa.Alloc) *ssa.BasicBlock {
+	vs := w.FieldStoresDeep(g, alloc)["Curve"]
+	if len(vs) != 1 {
+		return nil
+	}
+	ph, ok := w.canon(g, vs[0]).(*ssa.Phi)
+	if !ok || ph.Parent() != alloc.Parent() || !ph.Block().Dominates(alloc.Block()) {
+		return nil
+	}
+	return ph.Block()
 }
